@@ -58,7 +58,7 @@ def relocsBuild (a : List String) : String :=
     let out := Relocs.build ps
     let rt := decide (Relocs.flat out = ps)
     let hyp := ps.all (fun p => 1 ≤ p.2 ∧ p.2 ≤ 15 ∧ p.1 < 4294967296)
-    s!"ok {hex out} ## roundtrip={if rt then 1 else 0} hyp={if hyp then 1 else 0}"
+    s!"ok {hex out} flat=[{fmtPairs (Relocs.flat out)}] ## roundtrip={if rt then 1 else 0} hyp={if hyp then 1 else 0} input=[{fmtPairs ps}]"
   | _ => "bad-op"
 
 end Pelite.Driver
